@@ -165,7 +165,8 @@ fn check(c: &InputCase, rec: &mut CaseRec) -> Verdict {
                 break;
             }
             (Status::Done, RunStop::Error(e)) => {
-                if m.outcome() != Some((e.kind, e.line)) {
+                let runaway = m.runaway_function_recursion && e.kind == ErrKind::StackOverflow && matches!(m.outcome(), Some((ErrKind::StackOverflow, _)));
+                if m.outcome() != Some((e.kind, e.line)) && !runaway {
                     return Verdict::fail("outcome-differs", show(format!("model {:?}, impl {:?} {:?}", m.outcome(), e.kind, e.line)));
                 }
                 break;
